@@ -117,3 +117,59 @@ Definition spec_row (width : nat) (b : option row) (os : list (option row)) : ro
       then OConflict
       else ORow (map (fun i => render (spec_value (cell_base b i) (cell_states b os i))) (seq 0 width))
   end.
+
+(** ---- table level, under the "same layout" guard ---- *)
+(** a table in the common layout: columns [cols], key [pk], rows as wide as the columns,
+    keys distinct (what ingest produces) *)
+Definition wf_table (cols pk : list name) (t : table) : Prop :=
+  t_cols t = cols /\ t_pk t = pk /\ (forall r, In r (t_rows t) -> length r = length cols) /\
+  NoDup (map (key_of t) (t_rows t)).
+
+(** the guard: duplicate-free columns, the (non-empty) key is a prefix of them, and the base
+    and every branch have exactly these columns and this key: merged layout = base layout *)
+Definition guard (cols pk : list name) (base : table) (others : list table) : Prop :=
+  NoDup cols /\ pk <> [] /\ (exists rest, cols = pk ++ rest) /\ others <> [] /\
+  wf_table cols pk base /\ Forall (wf_table cols pk) others.
+
+(** key cells of a row in the common layout: the first |pk| cells *)
+Definition kf (p : nat) (r : row) : list bytes := pick (seq 0 p) r.
+
+(** the keys occurring in the base or in a branch *)
+Definition table_keys (pk : list name) (base : table) (others : list table) (k : list bytes) : Prop :=
+  exists t, (t = base \/ In t others) /\ exists r, In r (t_rows t) /\ kf (length pk) r = k.
+
+(** the row the merge result must hold for key k (None: no row).  Conflicting keys follow the
+    caller's policy: 0 = left alone (the base row stays), 1 = dropped (as merge --no-gui does) *)
+Definition final_row (cols : list name) (base : table) (others : list table) (policy : nat) (k : list bytes)
+  : option row :=
+  match spec_row (length cols) (lookup base k) (map (fun o => lookup o k) others) with
+  | OStay r | ORow r => Some r
+  | OGone => None
+  | OConflict => if Nat.eqb policy 0 then lookup base k else None
+  end.
+
+Definition outcome_row (o : row_outcome) : option row :=
+  match o with OStay r | ORow r => Some r | OGone | OConflict => None end.
+Definition is_conflict (o : row_outcome) : bool := match o with OConflict => true | _ => false end.
+
+(** disjoint edits: for a key, the two branches never change the same cell, a removed row is
+    untouched by the other branch, and a new key is added by one branch only *)
+Definition disjoint_at (n : nat) (b x y : option row) : Prop :=
+  match b, x, y with
+  | Some br, Some xr, Some yr => forall i, i < n -> nth i xr [] = nth i br [] \/ nth i yr [] = nth i br []
+  | Some br, None, Some yr => yr = br
+  | Some br, Some xr, None => xr = br
+  | Some br, None, None => True
+  | None, Some _, Some _ => False
+  | None, _, _ => True
+  end.
+
+(** the combination of disjoint edits: every changed cell is kept *)
+Definition combined (n : nat) (b x y : option row) : option row :=
+  match b, x, y with
+  | Some br, Some xr, Some yr =>
+      Some (map (fun i => if beqb (nth i xr []) (nth i br []) then nth i yr [] else nth i xr []) (seq 0 n))
+  | Some _, _, _ => None
+  | None, Some xr, _ => Some xr
+  | None, None, y => y
+  end.
